@@ -1,11 +1,12 @@
 """C19 - path combination tolerates arbitrary segment sets from the control plane.
 
 Pipeline (DESIGN.md 7/C19):
-  1. TLC on MC_SegSoup: the valid segment sets of four small topologies (up-core-down, shortcut-Y,
-     peering-H, multi-hop core) under every structural mutation (DeleteEntry, DupEntry, SwapEntries,
-     ZeroIf, ZeroAll, AliasIf, CrossWirePeer, ZeroPeer, Oversize 63/64/70, SingleAs, Empty, OutOfRangeMtu,
+  1. TLC on MC_SegSoup: the valid segment sets of five small topologies (up-core-down, shortcut-Y,
+     peering-H, multi-hop core, an AS with two peering links) under every structural mutation (DeleteEntry, DupEntry, SwapEntries,
+     ZeroIf, ZeroAll, AliasIf, CrossWirePeer, ZeroPeer, FrontBrokenPeer (a broken peer entry listed in
+     front of the valid ones), Oversize 63/64/70, SingleAs, Empty, OutOfRangeMtu,
      DupSegment, FlipKind, AddIsland) and every pair "mutation, then junk/degenerate mutation"
-     (thorough: the larger junk alphabet, all pairs of the non-oversize mutations on the peering topology, triples with the small junk alphabet on two topologies).  The I-layer is the
+     (thorough: the larger junk alphabet, all pairs of the non-oversize mutations on the two-peering-link topology, triples with the small junk alphabet on two topologies).  The I-layer is the
      combinator as written (graph edges, breadth-first search with valid_next_seg, PathSolution::path
      interface list, encodability, loop filter); invariants Total, Monotone, SelfConsistent on the
      model.  Oracle self-check: FIXED = FALSE (pinned commit: malformed segments used, empty interface
@@ -21,7 +22,9 @@ Pipeline (DESIGN.md 7/C19):
                       monitor is for super-polynomial searches, not constant factors)
        SelfConsistent every returned path re-parses with StandardPathView::try_from_slice, its
                       metadata interface list equals the interfaces its hop fields traverse (count = 2 x
-                      links, ids, AS chaining, no id 0), src/dst = first/last interface, expiry = min hop expiry
+                      links, ids, AS chaining, no id 0), src/dst = first/last interface, expiry = min hop expiry;
+                      every link it crosses is announced by an input segment (consecutive entries or a peer
+                      entry naming both interfaces) and its MTU does not exceed that peering link's MTU
        Monotone       paths(good + junk) >= paths(good); equal when the specification says all junk is
                       NonContributing
      I-layer conformance (DRIFT only): real path sets / panics = the model's.
@@ -41,7 +44,7 @@ Readings adopted (demanding less):
     virtualised; stolen time inflates both alike); ratios still vary widely under load, hence a wide margin.
   * the endpoints of a returned path are only compared with the path's own interface list (a path whose
     first AS is not the requested source would be self-consistent; this is counted, not judged).
-  * MTU metadata is not part of SelfConsistent.
+  * of the MTU metadata only "not above the MTU announced for a crossed peering link" is judged.
 """
 import json
 import os
@@ -51,7 +54,7 @@ from vcommon import read_ndjson, write_ndjson
 SD = "SegSoup"
 
 ALL_OPS = ["DeleteEntry", "DupEntry", "SwapEntries", "ZeroIf", "ZeroAll", "AliasIf", "CrossWirePeer", "Oversize",
-           "SingleAs", "Empty", "OutOfRangeMtu", "DupSegment", "FlipKind", "AddIsland", "ZeroPeer"]
+           "SingleAs", "Empty", "OutOfRangeMtu", "DupSegment", "FlipKind", "AddIsland", "ZeroPeer", "FrontBrokenPeer"]
 JUNK_OPS = ["AddIsland", "ZeroAll", "Empty", "DupSegment", "SingleAs", "FlipKind"]
 QUICK_JUNK = ["AddIsland", "ZeroAll", "Empty", "DupSegment"]
 
@@ -161,15 +164,15 @@ def run(c):
     # ---- oracle self-check: the pinned-commit combinator violates Total and SelfConsistent in the model
     r0 = c.tlc(SD, "MC_SegSoup", cfg=cfg(c, "mc_unfixed.cfg", MC_TMPL.format(
         fixed="FALSE", topos="{2}", depth=1, ops1=tla_set(["ZeroAll", "ZeroIf"]), ops2="{}", gen="FALSE",
-        invs="Total SelfConsistent")), expect_violation=True, coverage=False, extra=["-continue"], timeout=1500)
+        invs="Total SelfConsistent")), expect_violation=True, coverage=False, extra=["-continue"], timeout=3600)
     if "Total" not in r0.violated or "SelfConsistent" not in r0.violated:
         c.fail_tool("oracle self-check failed: FIXED = FALSE no longer violates Total and SelfConsistent in the model (%s)" % r0.violated)
 
     # ---- 1. exhaustive runs + generation ------------------------------------------------------
-    runs = [dict(topos="{1, 2, 3, 4}", depth=2, ops1=tla_set(ALL_OPS), ops2=tla_set(JUNK_OPS if thorough else QUICK_JUNK))]
+    runs = [dict(topos="{1, 2, 3, 4, 5}", depth=2, ops1=tla_set(ALL_OPS), ops2=tla_set(JUNK_OPS if thorough else QUICK_JUNK))]
     if thorough:
         light = [o for o in ALL_OPS if o not in ("Oversize", "OutOfRangeMtu")]
-        runs += [dict(topos="{3}", depth=2, ops1=tla_set(light), ops2=tla_set(light)),
+        runs += [dict(topos="{5}", depth=2, ops1=tla_set(light), ops2=tla_set(light)),
                  dict(topos="{1, 4}", depth=3, ops1=tla_set(QUICK_JUNK + ["ZeroIf"]), ops2=tla_set(QUICK_JUNK))]
     cases = []
     seen = set()
